@@ -1,6 +1,7 @@
 package sim
 
 import (
+	"testing/fstest"
 	"context"
 	"errors"
 	"fmt"
@@ -23,7 +24,7 @@ const (
 	c06MaxBatch = 10
 )
 
-var c06EntryName = [...]string{"Eval(dfr.Run())", "exported dfr.Run", "Eval(dfr.RunRaw())", "EvalWithContext(dfr.RunRaw())", "Compile+Execute(dfr.RunRaw())", "Eval(var v = dfr.RunRaw())"}
+var c06EntryName = [...]string{"Eval(dfr.Run())", "exported dfr.Run", "Eval(dfr.RunRaw())", "EvalWithContext(dfr.RunRaw())", "Compile+Execute(dfr.RunRaw())", "Eval(var v = dfr.RunRaw())", "Eval(import of a source package whose init calls dfr.RunRaw())", "EvalPath(directory of a main package calling dfr.RunRaw())"}
 
 type c06Native struct {
 	ev  map[int][]string
@@ -243,7 +244,10 @@ func RunC06(t *testing.T, tape *Tape) *Outcome {
 	o.Desc = fmt.Sprintf("batch of %d fault plans on one interpreter", nplans)
 	var descs []string
 
-	it := NewInterpFS(nil)
+	// (source packages of the import-init and EvalPath entries are added to the
+	// in-memory file system plan by plan)
+	fsys := fstest.MapFS{"_pkg/src/dfr/dfr.go": &fstest.MapFile{Data: []byte(dfr.Src)}}
+	it := NewInterpFS(fsys)
 	if _, err := it.Eval(dfr.Src); err != nil {
 		o.Inconclusive = "engine source rejected: " + err.Error()
 		return o
@@ -316,6 +320,17 @@ func RunC06(t *testing.T, tape *Tape) *Outcome {
 			case 5:
 				// the panic unwinds through the initialisation of a package-level variable
 				evalRes, evalErr = it.Eval(fmt.Sprintf("var pv%d = dfr.RunRaw()", pi))
+			case 6:
+				// ... through the init function of a source package while the
+				// evaluation that imports it is still being compiled
+				name := fmt.Sprintf("dfri%d", pi)
+				fsys["_pkg/src/"+name+"/"+name+".go"] = &fstest.MapFile{Data: []byte("package " + name + "\n\nimport \"dfr\"\n\nvar R int\n\nfunc init() { R = dfr.RunRaw() }\n")}
+				evalRes, evalErr = it.Eval("import \"" + name + "\"")
+			case 7:
+				// ... through the main function of a package given as a directory
+				name := fmt.Sprintf("dfrm%d", pi)
+				fsys["_pkg/src/"+name+"/main.go"] = &fstest.MapFile{Data: []byte("package main\n\nimport \"dfr\"\n\nfunc main() { dfr.RunRaw() }\n")}
+				evalRes, evalErr = it.EvalPath("./_pkg/src/" + name)
 			}
 		}
 		if spawns {
@@ -426,7 +441,7 @@ func hasNonProbe(o *Outcome) bool {
 }
 
 func entryClass(e int) string {
-	return [...]string{"eval", "exported", "eval", "eval-ctx", "execute", "eval-var-init"}[e]
+	return [...]string{"eval", "exported", "eval", "eval-ctx", "execute", "eval-var-init", "eval-import-init", "evalpath-dir"}[e]
 }
 
 func faultName(ev string) string {
